@@ -285,6 +285,8 @@ for _p in UNITS["U6"]["parts"]:
     _p9.append(_p)
     if _p == ("file", "spec/pfedit.rs"):
         _p9.append(("file", "spec/mutate.rs"))
+        _p9.append(("file", "spec/pfmut.rs"))
+        _p9.append(("file", "spec/pfmut_ops.rs"))
     if _p[0] == "struct" and _p[2] == "ParsedPacket":
         pass
 _p9 += [("impl", "compress.rs", "Compress", ["check_compressed_name"], "external"), ("struct", "synth/gen.rs", "RR", ["pubfields"]), ("impl", "dns_sector.rs", "DNSSector", ["set_qdcount", "set_ancount", "set_nscount", "set_arcount"]),
